@@ -182,6 +182,8 @@ def unit_types_classic(S):
     stacks = {"plain": lambda e: e, "TimeLimit": lambda e: W.TimeLimit(e, 50), "Flatten(TimeLimit)": lambda e: W.FlattenObservation(W.TimeLimit(e, 50)),
               "ClipObservation": lambda e: W.ClipObservation(e), "RescaleObservation": lambda e: W.RescaleObservation(e) if bool(jnp.all(jnp.isfinite(e.observation_space.high))) else e}
     for name in ("CartPole", "MountainCar", "ContinuousMountainCar", "Acrobot", "Pendulum"):
+        S.fact(f"{name}/construction-independent-of-earlier-instances", not _same_construction(getattr(CC, name)), function=f"lerax.env.classic_control:{name}.__init__",
+               replay=_construction_replay(getattr(CC, name), name), what="a second construction in the same process yields the same environment (no Python-side state feeds observations, rewards or flags)")
         for sname, build in stacks.items():
             env = build(getattr(CC, name)())
             _type_obligations(S, f"{name}/{sname}", env, f"lerax.env.classic_control:{name}")
@@ -218,10 +220,36 @@ def _type_obligations(S, tag, env, fn):
 MUJOCO = ("Ant", "HalfCheetah", "Hopper", "Humanoid", "HumanoidStandup", "InvertedDoublePendulum", "InvertedPendulum", "Pusher", "Reacher", "Swimmer", "Walker2d")
 
 
+def _same_construction(mk):
+    """two constructions in the same process must give the same environment: same pytree structure (static fields included) and equal leaves"""
+    e1, e2 = mk(), mk()
+    l1, t1 = jax.tree.flatten(e1)
+    l2, t2 = jax.tree.flatten(e2)
+    diffs = []
+    if t1 != t2:
+        s1, s2 = str(t1), str(t2)
+        k = next((i for i, (a, b) in enumerate(zip(s1, s2)) if a != b), min(len(s1), len(s2)))
+        diffs.append(dict(what="static structure differs", first=s1[max(0, k - 80):k + 80], second=s2[max(0, k - 80):k + 80]))
+    for i, (a, b) in enumerate(zip(l1, l2)):
+        if hasattr(a, "shape") and hasattr(b, "shape"):
+            if np.shape(a) != np.shape(b) or not np.array_equal(np.asarray(a), np.asarray(b), equal_nan=True):
+                diffs.append(dict(what=f"leaf {i} differs", first=str(np.asarray(a))[:120], second=str(np.asarray(b))[:120]))
+    return diffs
+
+
+def _construction_replay(mk, label):
+    def replay(model):
+        d = _same_construction(mk)
+        return dict(reproduced=bool(d), route="R1 (the real constructor called twice in one process)", inputs=dict(environment=label), observed=d[:3]) if d else dict(reproduced=False, note="second construction identical to the first")
+    return replay
+
+
 def unit_types_mujoco(name):
     def unit(S):
         from lerax.env import mujoco as MJ
         env = getattr(MJ, name)()
+        S.fact(f"{name}/construction-independent-of-earlier-instances", not _same_construction(lambda: getattr(MJ, name)()), function=f"lerax.env.mujoco:{name}.__init__",
+               replay=_construction_replay(lambda: getattr(MJ, name)(), name), what="a second construction in the same process yields the same environment (no Python-side state feeds observations, rewards or flags)")
         _type_obligations(S, f"{name}/plain", env, f"lerax.env.mujoco:{name}")
         _type_obligations(S, f"{name}/TimeLimit(ClipAction)", W.TimeLimit(W.ClipAction(env), 100), f"lerax.env.mujoco:{name}")
         if S.tier == "thorough":
@@ -234,6 +262,8 @@ def unit_types_g1(kind):
         from lerax.env.unitree.g1 import locomotion, standing, standup
         cls = {"locomotion": locomotion.G1Locomotion, "standing": standing.G1Standing, "standup": standup.G1Standup}[kind]
         env = cls()
+        S.fact(f"G1{kind}/construction-independent-of-earlier-instances", not _same_construction(cls), function=f"lerax.env.unitree.g1.{kind}:{cls.__name__}.__init__",
+               replay=_construction_replay(cls, cls.__name__), what="a second construction in the same process yields the same environment (no Python-side state feeds observations, rewards or flags)")
         _type_obligations(S, f"G1{kind}/plain", env, f"lerax.env.unitree.g1.{kind}:{cls.__name__}")
         if S.tier == "thorough":
             _bounded_rollout(S, f"G1{kind}", env, 16)
